@@ -98,6 +98,14 @@ Proof. unfold api_file_entry. destruct (q_api_file_no_finalize q); first [left; 
 Lemma gen_dry_aux_reset q : aux_cleared q = true.
 Proof. unfold aux_cleared, dry_resets. destruct (q_dry_keeps_storage q); reflexivity. Qed.
 Definition rows_kept (q : oquirks) : bool := negb (smem "_storage" (dry_resets q)).
+(* facts of the repaired source (fix commits 8b82489, 5ce39e3, f7c62f4): they hold for EVERY quirk vector, i.e. also for the
+   vector that reads these tables from the source; reverting a fix breaks them *)
+Lemma gen_rows_reset q : rows_kept q = false.
+Proof. unfold rows_kept, dry_resets. destruct (q_dry_keeps_storage q); reflexivity. Qed.
+Lemma gen_consts_view q l : consts_view q l = fv_sort l.
+Proof. unfold consts_view. destruct (q_consts_in_processing_order q); reflexivity. Qed.
+Lemma gen_api_file_entry q : api_file_entry q = "lint_files".
+Proof. unfold api_file_entry. destruct (q_api_file_no_finalize q); reflexivity. Qed.
 Lemma rows_reset_when_off q : q_dry_keeps_storage q = false -> rows_kept q = false.
 Proof. unfold rows_kept, dry_resets. intros ->. reflexivity. Qed.
 Lemma gen_st_clears : st_clears = true. Proof. reflexivity. Qed.
